@@ -161,6 +161,14 @@ def canon(x, stored=frozenset(), depth=0):
         except Exception as e:  # noqa
             return ("T?", tuple(x.shape), str(x.dtype), type(e).__name__)
     if _is_tensor_collection(type(x)):
+        from tensordict.utils import is_non_tensor
+        if is_non_tensor(x):
+            # a non-tensor entry that the read rebuilt (detach, batched views, …): by payload -- an indexed write into an entry that is
+            # a stack already changes the payloads of the members in place
+            try:
+                return ("NT", type(x).__name__, tuple(x.batch_size), repr(x.tolist())[:200])
+            except Exception as e:  # noqa
+                return ("NT", type(x).__name__, "<error>", type(e).__name__)
         items = []
         try:
             for k in x.keys():
